@@ -5,6 +5,7 @@ mod chansched;
 mod core;
 mod pingsched;
 mod sched;
+mod sig;
 mod tok;
 mod transient;
 
@@ -15,6 +16,7 @@ fn main() {
         "tok" => tok::run(),
         "pingsched" => pingsched::run(),
         "chansched" => chansched::run(),
+        "sig" => sig::run(),
         "core" => core::run(&args[2..]),
         "transient" => transient::run(),
         _ => {
